@@ -3,5 +3,6 @@ CONSTANTS
   Shapes <- ModelShapes
   Decoder = "stateful"
   Cache = "refresh"
+  Limit = 0
 INVARIANT Done
 CHECK_DEADLOCK FALSE
